@@ -126,6 +126,25 @@ func c10Cases() []c10Case {
 			q := c10Full("q")
 			return db.CreateInBatches(&[]Perm{*p, q, q}, 2)
 		}, nil},
+		{"create-slice-select", func(db *gorm.DB, p *Perm) *gorm.DB {
+			// a restricting Select on a batch create: columns it does not name stay out, also the
+			// key and the columns with database defaults when the elements carry values for them
+			q := c10Full("q")
+			p.ID, q.ID = 5, 6
+			res := db.Select("plain", "num").Create(&[]Perm{*p, q})
+			for _, col := range insertCols(res.Statement.SQL.String()) {
+				verifrt.Assert(hasStr([]string{"plain", "num", "createdat", "updatedat", "touchedms", "seenat"}, col), "C10.create-unselected-column:"+col)
+			}
+			return res
+		}, nil},
+		{"create-struct-select", func(db *gorm.DB, p *Perm) *gorm.DB {
+			p.ID = 5
+			res := db.Select("plain", "num").Create(p)
+			for _, col := range insertCols(res.Statement.SQL.String()) {
+				verifrt.Assert(hasStr([]string{"plain", "num", "createdat", "updatedat", "touchedms", "seenat"}, col), "C10.create-unselected-column:"+col)
+			}
+			return res
+		}, nil},
 		{"create-map", func(db *gorm.DB, p *Perm) *gorm.DB { return db.Model(&Perm{}).Create(allMap) }, nil},
 		{"create-maps", func(db *gorm.DB, p *Perm) *gorm.DB {
 			return db.Model(&Perm{}).Create([]map[string]interface{}{allMap, {"plain": "b", "ReadOnly": 2}})
